@@ -262,6 +262,24 @@ def classes_apply_transform(tier, seed):
             m.apply_transform(np.linalg.inv(M))
             if not C.close(m.vertices, v0, rtol=1e-7, atol=1e-7) or C.tri_multiset(m.vertices[m.faces], 5) != C.tri_multiset(v0[f0], 5):
                 bad("apply(M) then apply(M^-1) does not restore", **key)
+    # a user-given centre of mass (stored with the mesh data) is a point of the body: it maps
+    # through every M, a pure translation included, and composition / inverse hold for it
+    for xname, M in list(mats) + [("pure-translation", tf.translation_matrix([3.0, -2.0, 0.5])), ("tiny-translation", tf.translation_matrix([1e-9, 0.0, 0.0]))]:
+        cases += 1
+        m = trimesh.creation.box(extents=[1.0, 2.0, 3.0])
+        c0 = np.array([0.25, -0.5, 1.0])
+        m.center_mass = c0
+        _ = m.mass_properties
+        I_before = m.moment_inertia.copy()
+        m.apply_transform(M)
+        if xname == "pure-translation" and not C.close(m.moment_inertia, I_before, rtol=1e-9, atol=1e-9):
+            bad("overridden centre of mass: inertia about it changes under a pure translation", matrix=xname, got=float(np.abs(m.moment_inertia - I_before).max()))
+        want = M[:3, :3] @ c0 + M[:3, 3]
+        if not C.close(m.center_mass, want, rtol=1e-9, atol=1e-12):
+            bad("overridden centre of mass does not map through M", matrix=xname, got=m.center_mass, want=want)
+        m.apply_transform(np.linalg.inv(M))
+        if not C.close(m.center_mass, c0, rtol=1e-7, atol=1e-9):
+            bad("overridden centre of mass: apply(M) then apply(M^-1) does not restore", matrix=xname)
     # composition
     for (mname, mk) in C.meshes(tier):
         for (an, A), (bn, B) in itertools.product(mats[1:6], mats[3:8]):
